@@ -68,7 +68,8 @@ def extract(mode="dev", use_cache=True):
             raise SystemExit("FATAL: fact extraction failed (the tree does not compile?)")
         os.replace(tmp, path)
         # keep the cache small
-        ents = sorted((os.path.getmtime(os.path.join(cache_dir, f)), f) for f in os.listdir(cache_dir) if f.startswith("facts-"))
+        # (never touch another process's in-flight temporary file)
+        ents = sorted((os.path.getmtime(os.path.join(cache_dir, f)), f) for f in os.listdir(cache_dir) if f.startswith("facts-") and f.endswith(".json"))
         for _, f in ents[:-6]:
             try:
                 os.remove(os.path.join(cache_dir, f))
